@@ -51,7 +51,10 @@ TKNext ==
        THEN /\ l' = l + 1
             /\ st' = InitState
             /\ TLCSet(3, TLCGet(3) + 1)
-       ELSE LET r == Apply(st, e) IN
+       ELSE LET r == IF e.ev = "uncaught_panic"          \* a panic that escaped every guarded call of the recorder: no
+                     THEN [ok |-> FALSE, st |-> st,     \* specification has such an action, whatever the property
+                           exp |-> [why |-> "panic_outside_a_guarded_call"]]
+                     ELSE Apply(st, e) IN
               IF r.ok
               THEN /\ l' = l + 1
                    /\ st' = r.st
